@@ -437,11 +437,53 @@ def add_literals(pack):
     c.replay(lambda m, ctx, ob: LIT_REPLAY)
     c.replay_without_model = True
 
+    # ---- sequential collections: the literal's text, with the metadata in front of the *whole* literal
+    from basilisp.lang import list as llist_, queue as lqueue_, set as lset_, vector as vec_
+
+    PRINTED = z3.Function("seq_lrepr_text", V.Val, V.Val, V.Val, V.Val, z3.StringSort())   # seq_lrepr(items, start, end, meta)
+
+    def csetup(eng, st):
+        for c_ in (llist_.PersistentList, lqueue_.PersistentQueue, lset_.PersistentSet, vec_.PersistentVector):
+            eng.class_id(c_)
+
+        def seq_lrepr(e, s, a, k):
+            # trusted (obj.seq_lrepr, not under contract): "^<meta> " first when metadata is printed, then start, the
+            # elements separated by spaces, then end
+            items, start, end = (e.lift(x, s) for x in a[:3])
+            meta = e.lift(k.get("meta"), s)
+            s.ghost["seq_lrepr_calls"] = list(s.ghost.get("seq_lrepr_calls", [])) + [(items, a[1], a[2], meta, {n: v for n, v in k.items() if n != "meta"})]
+            yield s, SV(V.mk_str(PRINTED(items, start, end, meta)))
+
+        eng.models[id(obj.seq_lrepr)] = Model("obj.seq_lrepr (trusted: metadata prefix, start, elements, end)", seq_lrepr)
+
+    for cls, start, end in ((vec_.PersistentVector, "[", "]"), (llist_.PersistentList, "(", ")"), (lset_.PersistentSet, "#{", "}"), (lqueue_.PersistentQueue, "#queue (", ")")):
+        c = pack.contract(f"{cls.__module__}:{cls.__name__}._lrepr")
+        c.param("self", OBJ(cls))
+        c.setup(csetup)
+        c.extra_kwargs = {"print_meta": SV(V.fresh_val("print_meta")), "print_dup": SV(V.fresh_val("print_dup"))}
+        c.raises()
+
+        def coll_post(a, start=start, end=end):
+            calls = a.post.st.ghost.get("seq_lrepr_calls", [])
+            if len(calls) != 1:
+                return z3.BoolVal(False)
+            items, st_, en_, meta, rest = calls[0]
+            if st_ != start or en_ != end or set(rest) != {"print_meta", "print_dup"}:
+                return z3.BoolVal(False)
+            return z3.And(items == R.fld(a.pre.st, a.self, "_inner"), meta == R.fld(a.pre.st, a.self, "_meta"),
+                          a.result == V.mk_str(PRINTED(items, a.eng.lift(start, a.pre.st), a.eng.lift(end, a.pre.st), meta)))
+
+        c.ensures(f"the text is exactly what the shared printer makes of the elements between {start!r} and {end!r} with this collection's metadata - the whole literal, "
+                  "reader tag included, comes after the metadata prefix, so that reading it back attaches the metadata to the collection itself; the print settings are passed on", coll_post)
+        c.replay(lambda m, ctx, ob: LIT_REPLAY)
+        c.replay_without_model = True
+
 
 def R_WS():
     import sys as _sys
 
     return [chr(cp) for cp in range(_sys.maxunicode + 1) if chr(cp).isspace()] + [","]
+
 
 
 LIT_REPLAY = r'''
@@ -473,6 +515,26 @@ for v in (kw.keyword("a"), kw.keyword("b", ns="n.s"), kw.keyword("x-y?"), sym.sy
     back = list(reader.read_str(t))
     if not (len(back) == 1 and back[0] == v and type(back[0]) is type(v)):
         bad.append("%r prints as %r which reads as %r" % (v, t, back))
+from basilisp.lang import vector as vec, list as llist, set as lset, queue as lqueue, map as lmap
+M = lmap.map({kw.keyword("m"): 1})
+for v in (vec.v(1, 2), llist.l(1, 2), lset.s(1), lqueue.q(1, 2), lqueue.q(), vec.v(lqueue.q(1).with_meta(M))):
+    for meta in (None, M):
+        x = v.with_meta(meta) if meta is not None else v
+        t = lrepr(x, print_meta=True)
+        back = list(reader.read_str(t))
+        def user_meta(o):
+            mm = getattr(o, "meta", None)
+            if mm is None:
+                return None
+            d = {k_: v_ for k_, v_ in mm.items() if getattr(k_, "ns", None) != "basilisp.lang.reader"}
+            return d or None
+        want_meta = dict(x.meta.items()) if x.meta is not None else None
+        if not (len(back) == 1 and back[0] == x and type(back[0]) is type(x) and user_meta(back[0]) == want_meta):
+            bad.append("%r (meta %r) prints as %r which reads as %r with meta %r" % (x, x.meta, t, back, [getattr(b, "meta", None) for b in back]))
+        inner = [user_meta(e) for e in back[0]] if len(back) == 1 and hasattr(back[0], "__iter__") else []
+        orig = [dict(e.meta.items()) if getattr(e, "meta", None) is not None else None for e in x]
+        if len(back) == 1 and orig != inner:
+            bad.append("%r: metadata of the elements %r reads back as %r" % (t, orig, inner))
 for line in bad[:10]:
     print(line)
 print("REPRODUCED" if bad else "not reproduced")
